@@ -52,6 +52,7 @@ def engineJudge (eng : String) (args obs : List String) : Bool :=
      | _ => false)
   | "decode" => Decode.judge args obs
   | "http" => Http.judge args obs
+  | "nopanic" => obs.all (fun t => t == "cfg=ok" || t == "cfg=err" || t == "run=ok" || t == "run=-")   -- never PANIC / HANG
   | "memo" => Memo.judge args obs
   | "iso" => (match Eng.isoModel args with | some m => m == " ".intercalate obs | none => !obs.contains "PANIC")
   | _ => true
